@@ -21,7 +21,7 @@ sh("rsync -a --delete --exclude .build --exclude .work --exclude .git --exclude 
 ct = open(S + "/verif/harness/Cargo.toml").read().replace('path = "/repo"', 'path = "%s/repo"' % S)
 open(S + "/verif/harness/Cargo.toml", "w").write(ct)
 n = 0
-for d in sorted(glob.glob(os.path.join(MUT, "m*"))):
+for d in sorted(glob.glob(os.path.join(MUT, "[md]*"))):
     if os.path.exists(d + "/result.json") or not os.path.exists(d + "/patch.diff"):
         continue
     if n >= MAX:
